@@ -291,7 +291,7 @@ pub fn run(cfg: &Cfg, rep: &mut Report) {
         }
         play(&calls, rng, r, &|| crate::util::replay_ref(cfg, "exhaustive", idx), "x");
     });
-    let n = cfg.n(150_000, 1_500_000);
+    let n = cfg.n(150_000, 20_000_000);
     let plr = &pl;
     run_stage(cfg, rep, "random", n, |idx, rng, r| {
         let len = rng.range(1, 60);
